@@ -49,6 +49,7 @@ func c20Queue(tp *Tape, env *Env) (*Plan, *Violation) {
 	}
 	plan := &Plan{Harness: 1, Property: "C20", Extra: map[string]any{"queue_ops": ops}}
 	env.St.sample(map[string]any{"queue_history": opString(ops)})
+	journal(plan)
 	return plan, c20QueueExec(ops, env.St)
 }
 
@@ -160,6 +161,7 @@ func c20Stack(tp *Tape, env *Env) (*Plan, *Violation) {
 		ops = append(ops, o)
 	}
 	plan := &Plan{Harness: 1, Property: "C20", Extra: map[string]any{"stack_ops": ops}}
+	journal(plan)
 	return plan, c20StackExec(ops, env.St)
 }
 
@@ -225,6 +227,9 @@ func c20StackExec(ops []contOp, st *Stats) *Violation {
 }
 
 func c20TokenCase(b []byte, st *Stats) *Violation {
+	if journalFile != "" {
+		journal(&Plan{Harness: 1, Property: "C20", World: World{Readers: oneReader(b)}})
+	}
 	problem, skipped, indents := tokenBalance(b)
 	if st != nil {
 		st.inc("cases", 1)
